@@ -36,6 +36,9 @@ item = z3.Function("item", I, I, I)                     # identity of element i 
 exact_type = z3.Function("exact_type_id", I, I)           # identity of Py_TYPE(o) among the builtin types tested with Py*_CheckExact
 TYPE_IDS = {"PyLong_Type": 1, "PyFloat_Type": 2, "PyUnicode_Type": 3, "PyBytes_Type": 4, "PyByteArray_Type": 5, "PyList_Type": 6,
             "PyTuple_Type": 7, "PyDict_Type": 8, "PySet_Type": 9, "PyFrozenSet_Type": 10, "PyBool_Type": 11}
+is_bytes_sub = z3.Function("is_bytes_or_subclass", I, B)   # Py_TPFLAGS_BYTES_SUBCLASS of the object's type
+blen = z3.Function("bytes_len", I, I)                      # Py_SIZE of a bytes object
+bytes_of = z3.Function("bytes_of", I, z3.ArraySort(I, I))  # ob_sval[0..len] as (signed) chars
 richcmp_obj = z3.Function("richcmp_obj", I, I, I, I)        # PyObject_RichCompare(a, b, op): CPython's result object (0 = NULL)
 truth_of = z3.Function("truth_of", I, I)                    # PyObject_IsTrue(x): 1 / 0 / -1
 pow2u = z3.Function("pow2", I, I)          # 2**n for n beyond what the C code computes itself
@@ -214,6 +217,11 @@ class CExecPyObj(CExecL3):
             t = self.ev(st, argn[0])
             f = self.ev(st, argn[1])
             if isinstance(t, Ptr) and isinstance(t.obj, tuple) and t.obj[0] == "typeof" and z3.is_int_value(f.t) \
+                    and f.t.as_long() == (1 << 27):
+                o = t.obj[1]
+                st.path.append(z3.Implies(exact_type(o) == TYPE_IDS["PyBytes_Type"], is_bytes_sub(o)))
+                return from_bool(is_bytes_sub(o), ty)
+            if isinstance(t, Ptr) and isinstance(t.obj, tuple) and t.obj[0] == "typeof" and z3.is_int_value(f.t) \
                     and f.t.as_long() == (1 << 24):
                 o = t.obj[1]
                 st.path.append(z3.Implies(is_long(o), is_long_sub(o)))
@@ -275,6 +283,24 @@ class CExecPyObj(CExecL3):
             # pow2 is the function n -> 2**n: it agrees with the closed form on the range the closed form covers
             st.path.append(z3.Implies(z3.And(nb >= 0, nb <= 64), pow2u(nb) == _S.pow2(nb)))
             return r
+        if name == "PyBytes_GET_SIZE":
+            o = self.oid(self.ev(st, argn[0]))
+            self.oblige(st, "pre", "PyBytes_GET_SIZE.argument_is_bytes", is_bytes_sub(o), n)
+            st.path.append(z3.And(blen(o) >= 0, blen(o) < 2 ** 62))
+            self.assumptions.add("PyBytes_GET_SIZE(o) is the length of the bytes object (0 <= size, far below PY_SSIZE_T_MAX)")
+            return CV(ty, blen(o))
+        if name == "PyBytes_AS_STRING":
+            o = self.oid(self.ev(st, argn[0]))
+            self.oblige(st, "pre", "PyBytes_AS_STRING.argument_is_bytes", is_bytes_sub(o), n)
+            oname = "pybytes[%s]" % o
+            if oname not in st.objs:
+                from .cfe import MemObj
+                st.objs[oname] = MemObj(oname, parse_type("char"), blen(o) + 1)
+            if oname not in st.mem:
+                st.mem[oname] = bytes_of(o)
+                st.path.append(z3.And(blen(o) >= 0, blen(o) < 2 ** 62))
+            self.assumptions.add("PyBytes_AS_STRING(o) points to len(o) + 1 readable chars (the contents and a terminating NUL)")
+            return Ptr(ty, oname, z3.IntVal(0))
         if name == "PyFloat_AS_DOUBLE":
             o = self.oid(self.ev(st, argn[0]))
             self.oblige(st, "pre", "PyFloat_AS_DOUBLE.argument_is_a_float", is_float(o), n)
